@@ -38,6 +38,9 @@ def main():
             if q.returncode == 2:
                 print(q.stderr[-1500:])
         json.dump(res, open(os.path.join(sd, "result.json"), "w"), indent=1)
+        fp = os.path.join(sd, "first_pass.json")   # outcome of the very first run, before anything was strengthened; never overwritten
+        if not os.path.exists(fp) and os.environ.get("SEED_FIRST_PASS"):
+            json.dump(res, open(fp, "w"), indent=1)
     finally:
         shutil.rmtree(tmp, ignore_errors=True)
 
